@@ -38,6 +38,30 @@ impl RingBuffer {
         }
     }
 
+    /// Verification hook: the raw position state `(cap, head, tail)`.
+    #[cfg(killingspark_zstd_rs_verif)]
+    pub fn verif_indices(&self) -> (usize, usize, usize) {
+        (self.cap, self.head, self.tail)
+    }
+
+    /// Verification hook: record a ring operation with its operands and the state after it.
+    #[cfg(killingspark_zstd_rs_verif)]
+    #[inline]
+    fn verif_op(&self, kind: &'static str, a: usize, b: usize) {
+        crate::verif::emit(
+            crate::verif::RING,
+            kind,
+            &[
+                a as u64,
+                b as u64,
+                self.buf.as_ptr() as usize as u64,
+                self.cap as u64,
+                self.head as u64,
+                self.tail as u64,
+            ],
+        );
+    }
+
     /// Return the number of bytes in the buffer.
     pub fn len(&self) -> usize {
         let (x, y) = self.data_slice_lengths();
@@ -56,6 +80,8 @@ impl RingBuffer {
         // SAFETY: Upholds invariant 3; 0 is always valid
         self.head = 0;
         self.tail = 0;
+        #[cfg(killingspark_zstd_rs_verif)]
+        self.verif_op("clear", 0, 0);
     }
 
     /// Ensure that there's space for `amount` elements in the buffer.
@@ -120,6 +146,8 @@ impl RingBuffer {
         // SAFETY: Upholds invariant 1: the buffer was just allocated correctly
         self.buf = new_buf;
         self.cap = new_cap;
+        #[cfg(killingspark_zstd_rs_verif)]
+        self.verif_op("grow", amount, 0);
     }
 
     #[allow(dead_code)]
@@ -130,6 +158,8 @@ impl RingBuffer {
         unsafe { self.buf.as_ptr().add(self.tail).write(byte) };
         // SAFETY: Upholds invariant 3 by wrapping `tail` around
         self.tail = (self.tail + 1) % self.cap;
+        #[cfg(killingspark_zstd_rs_verif)]
+        self.verif_op("extend", 1, 0);
     }
 
     /// Fetch the byte stored at the selected index from the buffer, returning it, or
@@ -179,6 +209,8 @@ impl RingBuffer {
         }
         // SAFETY: Upholds invariant 3 by wrapping `tail` around.
         self.tail = (self.tail + len) % self.cap;
+        #[cfg(killingspark_zstd_rs_verif)]
+        self.verif_op("extend", len, 0);
     }
 
     /// Advance head past `amount` elements, effectively removing
@@ -189,6 +221,8 @@ impl RingBuffer {
         // SAFETY: we maintain invariant 2 here since this will always lead to a smaller buffer
         // for amount≤len
         self.head = (self.head + amount) % self.cap;
+        #[cfg(killingspark_zstd_rs_verif)]
+        self.verif_op("drop", amount, 0);
     }
 
     /// Return the size of the two contiguous occupied sections of memory used
@@ -283,6 +317,8 @@ impl RingBuffer {
     pub unsafe fn extend_from_within_unchecked(&mut self, start: usize, len: usize) {
         debug_assert!(start + len <= self.len());
         debug_assert!(self.free() >= len);
+        #[cfg(killingspark_zstd_rs_verif)]
+        self.verif_op("efw_pre", start, len);
 
         if self.head < self.tail {
             // Continuous source section and possibly non continuous write section:
@@ -451,6 +487,8 @@ impl RingBuffer {
         }
 
         self.tail = (self.tail + len) % self.cap;
+        #[cfg(killingspark_zstd_rs_verif)]
+        self.verif_op("efw", start, len);
     }
 
     pub fn extend_and_fill(&mut self, fill_with: u8, fill_length: usize) {
@@ -472,6 +510,8 @@ impl RingBuffer {
             }
         }
         self.tail = (self.tail + fill_length) % self.cap;
+        #[cfg(killingspark_zstd_rs_verif)]
+        self.verif_op("fill", fill_length, 0);
     }
 
     pub fn extend_from_reader<R: Read>(
@@ -501,6 +541,8 @@ impl RingBuffer {
             read.read_exact(s2)?;
         }
         self.tail = (self.tail + fill_length) % self.cap;
+        #[cfg(killingspark_zstd_rs_verif)]
+        self.verif_op("reader", fill_length, 0);
         Ok(())
     }
 
@@ -562,6 +604,8 @@ impl RingBuffer {
             m1_ptr, m2_ptr, f1_ptr, f2_ptr, m1_in_f1, m2_in_f1, m1_in_f2, m2_in_f2,
         );
         self.tail = (self.tail + len) % self.cap;
+        #[cfg(killingspark_zstd_rs_verif)]
+        self.verif_op("efw", start, len);
     }
 }
 
@@ -615,6 +659,8 @@ unsafe fn copy_bytes_overshooting(
 
     // Can copy in just one read+write, very common case
     if min_buffer_size >= COPY_AT_ONCE_SIZE && copy_at_least <= COPY_AT_ONCE_SIZE {
+        #[cfg(killingspark_zstd_rs_verif)]
+        verif_copy(src, dst, copy_at_least, COPY_AT_ONCE_SIZE, COPY_AT_ONCE_SIZE);
         dst.0
             .cast::<CopyType>()
             .write_unaligned(src.0.cast::<CopyType>().read_unaligned())
@@ -631,15 +677,51 @@ unsafe fn copy_bytes_overshooting(
                 src_ptr = src_ptr.add(1);
                 dst_ptr = dst_ptr.add(1);
             }
+            #[cfg(killingspark_zstd_rs_verif)]
+            verif_copy(
+                src,
+                dst,
+                copy_at_least,
+                src_ptr as usize - src.0 as usize,
+                COPY_AT_ONCE_SIZE,
+            );
         } else {
             // Fall back to standard memcopy
             dst.0.copy_from_nonoverlapping(src.0, copy_at_least);
+            #[cfg(killingspark_zstd_rs_verif)]
+            verif_copy(src, dst, copy_at_least, copy_at_least, COPY_AT_ONCE_SIZE);
         }
     }
 
     debug_assert_eq!(
         slice::from_raw_parts(src.0, copy_at_least),
         slice::from_raw_parts(dst.0, copy_at_least)
+    );
+}
+
+/// Verification hook: record one raw copy (addresses, eligible region lengths, the wanted length,
+/// the number of bytes the chosen branch actually read and wrote, and the chunk size).
+#[cfg(killingspark_zstd_rs_verif)]
+#[inline]
+fn verif_copy(
+    src: (*const u8, usize),
+    dst: (*mut u8, usize),
+    copy_at_least: usize,
+    touched: usize,
+    chunk: usize,
+) {
+    crate::verif::emit(
+        crate::verif::COPY,
+        "copy",
+        &[
+            src.0 as usize as u64,
+            src.1 as u64,
+            dst.0 as usize as u64,
+            dst.1 as u64,
+            copy_at_least as u64,
+            touched as u64,
+            chunk as u64,
+        ],
     );
 }
 
